@@ -53,6 +53,7 @@ type World struct {
 	Webhook       *Proc
 	Track         *tracker
 	foreignUIDs   map[string]string
+	inDup         bool
 	Mon           *fullMon
 	tickerPausedAll bool
 	inFixpoint    bool
@@ -78,6 +79,25 @@ func (w *World) noteCronInit(p *Proc) {
 func (w *World) noteCronQueueAdd(p *Proc, item string) {
 	for _, f := range w.onCronQueue {
 		f(p, item)
+	}
+	// queue.dup: the same (JobConfig, schedule time) key is delivered again later,
+	// possibly out of order and after the Job already exists (or was cleaned up).
+	if w.inDup || w.faultsOff || w.Plan.CronDupPm <= 0 || !w.Sim.ch.Flag(w.Plan.CronDupPm) {
+		return
+	}
+	n := 1 + w.Sim.ch.Uniform(3)
+	for i := 0; i < n; i++ {
+		delay := []time.Duration{50 * time.Millisecond, 700 * time.Millisecond, 3 * time.Second, 11 * time.Second, 40 * time.Second}[w.Sim.ch.Uniform(5)]
+		w.Sim.After(delay, "queue.dup "+item, func() {
+			c := w.controller()
+			if c == nil || c.cronQueue == nil || w.faultsOff {
+				return
+			}
+			w.Sim.Faults["queue.dup"]++
+			w.inDup = true
+			c.cronQueue.Add(item)
+			w.inDup = false
+		})
 	}
 }
 func (w *World) noteCronRefusal(p *Proc, jc *execution.JobConfig, jobName, why string) {
